@@ -25,6 +25,7 @@ import (
 // i.e. any run (possibly empty) of characters that can occur in the host part of an origin, the dot
 // included; it never stands for scheme or port characters and the bare entry "*" is not a wildcard
 // origin (it has neither scheme nor port) — it only enables the literal answer "*".
+// For an IPv6 literal the host is the address without its brackets (so ':' is a host character).
 // The reference takes the most permissive reading (empty run allowed, '.' allowed) because the
 // statement is an "only if": whatever the implementation echoes must be justified by the reference.
 // ---------------------------------------------------------------------------------------------
@@ -71,7 +72,7 @@ func c05Split(s string, entry bool) (c05Parts, bool) {
 		if j < 0 {
 			return c05Parts{}, false
 		}
-		host = rest[:j+1]
+		host = rest[1:j] // the brackets delimit an IPv6 literal, they are not host characters
 		tail := rest[j+1:]
 		if tail != "" {
 			if tail[0] != ':' {
@@ -267,6 +268,9 @@ func c05Port(t *rapid.T, scheme, label string) string {
 }
 
 func c05Join(scheme, host, port string) string {
+	if strings.Contains(host, ":") && !strings.HasPrefix(host, "[") {
+		host = "[" + host + "]" // IPv6 literal (c05Parts keeps it without brackets)
+	}
 	s := scheme + "://" + host
 	if port != "" {
 		s += ":" + port
@@ -365,7 +369,7 @@ const c05HostAlphabet = "abcdefghijklmnopqrstuvwxyz0123456789-"
 // c05Mutate applies one look-alike mutation and names it.
 func c05Mutate(t *rapid.T, o c05Parts) (c05Parts, string) {
 	kinds := []string{"port", "scheme"}
-	if !strings.HasPrefix(o.host, "[") {
+	if !strings.Contains(o.host, ":") {
 		kinds = []string{"host-1char", "host-suffix", "host-prefix", "port", "scheme"}
 		if i := strings.IndexByte(o.host, '.'); i >= 0 {
 			kinds = append([]string{"host-dot"}, kinds...)
